@@ -52,6 +52,9 @@ type vC07Case struct {
 	Hist   []vC07Op `json:"hist"`
 	Caller int      `json:"caller"`
 	Ep     string   `json:"ep"`
+	// booleans of Config read where the RPC server / client are built or by the endpoints themselves
+	Tracing  bool `json:"tracing,omitempty"`
+	Follower bool `json:"follower,omitempty"`
 }
 
 func (c *vC07Case) norm() {
@@ -82,7 +85,7 @@ func (c *vC07Case) norm() {
 }
 
 func (c *vC07Case) envKey() string {
-	b, _ := json.Marshal([]interface{}{c.Mode, c.Star, c.List, c.Hist})
+	b, _ := json.Marshal([]interface{}{c.Mode, c.Star, c.List, c.Hist, c.Tracing, c.Follower})
 	return string(b)
 }
 
@@ -146,6 +149,8 @@ func vC07NewEnv(t *testing.T, c *vC07Case) *vC07Env {
 		t.Fatal(err)
 	}
 	cfg.Peername = "vC07"
+	cfg.Tracing = c.Tracing
+	cfg.FollowerMode = c.Follower
 
 	var trust vC07TrustSrc
 	if c.Mode == "raft" {
@@ -198,12 +203,10 @@ func vC07NewEnv(t *testing.T, c *vC07Case) *vC07Env {
 		readyCh:     make(chan struct{}),
 		doneCh:      make(chan struct{}),
 	}
-	s, err := newRPCServer(e.cl)
-	if err != nil {
+	// server and client exactly as NewCluster builds them (setupRPC -> newRPCServer)
+	if err := e.cl.setupRPC(); err != nil {
 		t.Fatal(err)
 	}
-	e.cl.rpcServer = s
-	e.cl.rpcClient = rpc.NewClientWithServer(e.hostA, version.RPCProtocol, s)
 	if e.crdtc != nil {
 		// the component finishes its set-up (configured trusted peers -> trust cache) once it has a client
 		e.crdtc.SetClient(e.cl.rpcClient)
@@ -355,9 +358,17 @@ func vC07Grid(seed uint64, n int) []vC07Case {
 	}
 	var out []vC07Case
 	out = append(out, vC07Case{Kind: "methods", Mode: "raft"}, vC07Case{Kind: "policy", Mode: "raft"}, vC07Case{Kind: "valid", Mode: "raft"})
-	for _, c := range cfgs {
-		for caller := 0; caller < 3; caller++ {
-			out = append(out, vC07Case{Kind: "authall", Mode: c.mode, Star: c.star, List: c.list, Hist: c.hist, Caller: caller})
+	for i, c := range cfgs {
+		// the fixed configurations under every combination of the flags, the generated ones under a random one
+		flags := [][2]bool{{false, false}, {true, false}, {false, true}, {true, true}}
+		if i >= 6 {
+			flags = [][2]bool{{r.chance(50), r.chance(30)}}
+		}
+		for _, f := range flags {
+			for caller := 0; caller < 3; caller++ {
+				out = append(out, vC07Case{Kind: "authall", Mode: c.mode, Star: c.star, List: c.list, Hist: c.hist, Caller: caller,
+					Tracing: f[0], Follower: f[1]})
+			}
 		}
 	}
 	return out
@@ -438,7 +449,7 @@ func TestVerifC07(t *testing.T) {
 				passed, class := env.call(t, c.Caller, name, ep)
 				one := c
 				one.Kind, one.Ep = "auth", name
-				out.count(fmt.Sprintf("%s/caller%d/%s", c.Mode, c.Caller, class))
+				out.count(fmt.Sprintf("%s/tracing=%v/caller%d/%s", c.Mode, c.Tracing, c.Caller, class))
 				out.add(fmt.Sprintf("CAuth %s %d %s %s", one.coqMode(), c.Caller, cqStr(name), cqBool(passed)),
 					one, map[string]interface{}{"passed": passed, "class": class}, true)
 			}
